@@ -635,4 +635,100 @@ def run_wire_message(fields, reuse=True, binary=False):
                           "sofar": list(sofar) if full else [], "rest": list(rest) if full else [],
                           "split_ok": sofar + rest == raw})
     return {"fields": written, "ends": ends, "wire": list(raw), "reads": reads, "aborted": aborted, "error": err,
-            "asked": len(fields), "reuse": reuse}
+            "asked": len(fields), "reuse": reuse, "huge": False, "writes": []}
+
+
+# ---- messages with a huge field: the bytes stay here, TLC gets lengths and digests
+
+HUGE_TYPES = {"hstring": ("add_string", "get_string"), "htext": ("add_string", "get_text"), "hlist": ("add_list", "get_list")}
+
+
+def _digest(b):
+    import hashlib
+    return hashlib.sha256(b).hexdigest()
+
+
+def huge_value(t, n, seed):
+    """a value of huge type t whose content (bytes / UTF-8 / comma-joined UTF-8) is exactly n bytes long"""
+    import random
+    rnd = random.Random(seed)
+    if t == "hstring":
+        return rnd.randbytes(n)
+    if t == "htext":                       # 1-, 2-, 3- and 4-byte code points, filled up with ASCII
+        head = "\u00e9\u4e2d\U0001f511" * min(1000, n // 9)
+        return head + "".join(rnd.choice("abcxyz ,.-") for _ in range(64)) * ((n - len(head.encode())) // 64) + "q" * ((n - len(head.encode())) % 64)
+    names, left = [], n                    # name-list: names of 1..40 bytes, commas in between
+    while left > 0:
+        k = min(left, rnd.randint(1, 40))
+        if left - k == 1:                  # would leave room for a comma but no name
+            k += 1
+        names.append("n" * k)
+        left -= k + 1
+    return names
+
+
+def huge_summary(t, value):
+    """[t, len, digest] of a huge value (or of whatever a get_* returned for it)"""
+    try:
+        if t == "hstring" and isinstance(value, bytes):
+            content = value
+        elif t == "htext" and isinstance(value, str):
+            content = value.encode("utf-8")
+        elif t == "hlist" and isinstance(value, list) and all(isinstance(x, str) and x for x in value):
+            content = ",".join(value).encode("utf-8")
+        else:
+            return {"t": "other", "len": -1, "digest": ""}
+        return {"t": t, "len": len(content), "digest": _digest(content)}
+    except Exception:
+        return {"t": "other", "len": -1, "digest": ""}
+
+
+def run_wire_huge(items, reuse=True, binary=False):
+    """items: ("huge", t, n, seed) or ("small", field record).  Same procedure as run_wire_message, summarised"""
+    from paramiko.message import Message
+    m = Message()
+    fields, values, ends, writes, aborted, err = [], [], [], [], "", None
+    for it in items:
+        if it[0] == "huge":
+            _, t, n, seed = it
+            value = huge_value(t, n, seed)
+            f, writer = huge_summary(t, value), HUGE_TYPES[t][0]
+        else:
+            f, value = it[1], value_of(it[1])
+            writer = WRITERS[f["t"]]
+        before = len(m.asbytes())
+        try:
+            with time_limit(60):
+                getattr(m, writer)(value)
+        except (Exception, Hang) as e:
+            aborted, err = "write", "%s: %r" % (writer, e)
+            break
+        seg = m.asbytes()[before:]
+        fields.append(f)
+        values.append(value)
+        ends.append(before + len(seg))
+        writes.append({"seglen": len(seg), "header": list(seg[:4]), "digest": _digest(seg[4:]),
+                       "seg": list(seg) if it[0] == "small" else []})
+    raw = m.asbytes()
+    reads = []
+    if not aborted:
+        if reuse:
+            m.rewind()
+        else:
+            m = Message(raw)
+        for f in fields:
+            name = HUGE_TYPES[f["t"]][1] if f["t"] in HUGE_TYPES else READERS[f["t"]]
+            if name == "get_string" and binary:
+                name = "get_binary"
+            try:
+                with time_limit(60):
+                    val = getattr(m, name)()
+                    sofar, rest = m.get_so_far(), m.get_remainder()
+            except (Exception, Hang) as e:
+                aborted, err = "read", "%s: %r" % (name, e)
+                break
+            reads.append({"val": huge_summary(f["t"], val) if f["t"] in HUGE_TYPES else observed(f["t"], val),
+                          "sofar_len": len(sofar), "full": False, "sofar": [], "rest": [], "split_ok": sofar + rest == raw})
+    return {"fields": fields, "ends": ends, "wire": [], "reads": reads, "aborted": aborted, "error": err,
+            "asked": len(items), "reuse": reuse, "huge": True, "writes": writes,
+            "items": [list(it) for it in items], "total": len(raw)}
